@@ -10,11 +10,12 @@ from __future__ import annotations
 import json
 from typing import Optional
 
-from pydantic import create_model
+from pydantic import ConfigDict, Field, create_model, field_validator
 
 # ----------------------------------------------------------------------------- schemas
 FIELD_NAMES = ["name", "age", "price", "ok", "tags", "note", "count", "ratio", "title", "score",
-               "flag", "items", "city", "level", "ident"]
+               "flag", "items", "city", "level", "ident", "Name", "AGE", "Ok", "nAme",      # some differ from another only in case
+               "valid", "structure", "confidence", "strategy", "class", "gr\u00f6\u00dfe"]   # names of result attributes, a keyword, non-ASCII
 SUB_NAMES = ["x", "y", "label", "size", "on"]
 TCODES = ["int", "float", "str", "bool", "list_int", "list_str"]
 ANN = {"int": int, "float": float, "str": str, "bool": bool, "list_int": list[int], "list_str": list[str]}
@@ -26,6 +27,11 @@ _MODEL_CACHE: dict = {}
 def make_shape(rng):
     """shape = tuple of (name, tcode, opt[, subshape]); opt 0 required, 1 Optional[T]=None, 2 T=default."""
     nf = rng.choice([1, 2, 2, 3, 3, 4, 5])
+    r = rng.random()
+    if r < 0.012:
+        nf = 0                                # a schema without fields: every JSON object is an instance
+    elif r < 0.06:
+        nf = rng.randint(8, 14)               # wide schemas: many repairs / coercions of one kind in one text
     names = rng.sample(FIELD_NAMES, nf)
     fields = []
     for nm in names:
@@ -37,29 +43,64 @@ def make_shape(rng):
         sub = tuple((nm, rng.choice(["int", "float", "str", "bool", "str"]), rng.choice([0, 0, 1]))
                     for nm in rng.sample(SUB_NAMES, ns))
         fields.insert(rng.randrange(len(fields) + 1), ("inner", "model", rng.choice([0, 0, 1]), sub))
+    if nf >= 8 and rng.random() < 0.5:
+        # mostly bool / optional fields: a Python-repr rendering holds many True/False/None tokens
+        fields = [(f[0], rng.choice(["bool", "bool", "str"]), rng.choice([0, 1])) if f[1] != "model" else f for f in fields]
     return tuple(fields)
 
 
-def _field_def(t, opt, sub=None):
+def _field_def(t, opt, sub=None, describe=None):
     ann = build_model(sub) if t == "model" else ANN[t]
-    if opt == 0:
-        return (ann, ...)
+    default = ... if opt == 0 else (None if opt == 1 else DEFAULTS[t])
     if opt == 1:
-        return (Optional[ann], None)
-    return (ann, DEFAULTS[t])
+        ann = Optional[ann]
+    if describe:
+        return (ann, Field(default, description="the %s of the record (%s)" % (describe, t), title=describe.upper()))
+    return (ann, default)
+
+
+TOUCHY_WORDS = ("widget", "Alice")
+TOUCHY_NUMBERS = (42, -17, 9.5)
+
+
+class TouchyError(RuntimeError):
+    """Raised by the validator of a 'touchy' schema variant: a user hook failing with something that is not a ValueError."""
+
+
+def _touchy(cls, v):
+    if isinstance(v, str):
+        if any(w in v for w in TOUCHY_WORDS):
+            raise TouchyError("validator does not like %r" % (v,))
+    elif isinstance(v, (int, float)) and not isinstance(v, bool) and v in TOUCHY_NUMBERS:
+        raise TouchyError("validator does not like %r" % (v,))
+    return v
+
+
+VARIANTS = ("described", "frozen", "touchy")
 
 
 def build_model(shape, twin=False):
     """Model class for a shape (cached). `twin=True` gives a second, distinct class with equal fields
     (an equal-but-distinct schema: an instance of one is not an instance of the other); `twin="namesake"` a third
-    distinct class that also carries the first one's __name__/__qualname__ (distinct only by identity)."""
+    distinct class that also carries the first one's __name__/__qualname__ (distinct only by identity).
+    Further distinct classes with the same fields and the same set of valid instances' values:
+    `twin="described"` (field descriptions/titles and a docstring), `twin="frozen"` (immutable instances),
+    `twin="touchy"` (a field validator that returns every value unchanged but raises a RuntimeError subclass for some)."""
     key = (shape, "twin" if twin is True else twin) if twin else shape
     m = _MODEL_CACHE.get(key)
     if m is None:
         defs = {}
         for f in shape:
-            defs[f[0]] = _field_def(f[1], f[2] if f[1] != "model" or f[2] != 2 else 0, f[3] if len(f) > 3 else None)
-        m = create_model(build_model(shape).__name__ if twin == "namesake" else "S%d" % len(_MODEL_CACHE), **defs)
+            defs[f[0]] = _field_def(f[1], f[2] if f[1] != "model" or f[2] != 2 else 0, f[3] if len(f) > 3 else None,
+                                    describe=f[0] if twin == "described" else None)
+        kw = {}
+        if twin == "described":
+            kw["__doc__"] = "A record the model is asked to produce.\n\nFields: %s." % ", ".join(f[0] for f in shape)
+        elif twin == "frozen":
+            kw["__config__"] = ConfigDict(frozen=True)
+        elif twin == "touchy" and shape:
+            kw["__validators__"] = {"touchy": field_validator("*", mode="after")(classmethod(_touchy))}
+        m = create_model(build_model(shape).__name__ if twin == "namesake" else "S%d" % len(_MODEL_CACHE), **kw, **defs)
         _MODEL_CACHE[key] = m
     return m
 
@@ -95,6 +136,12 @@ UNI_WORDS = ["it\u2019s", "\u201cquoted\u201d", "\u2018single\u2019", "\u201alow
              "\u00bd", "x\u00b2", "\u2122", "wide\u3000space", "5\u2032 3\u2033", "\u02bcmod", "`\u00b4", "soft\u00adhyphen",
              "\u2212 1", "a\u2044b", "\u01c5", "\u1e9e", "o\u0308", "\u00f6"]
 
+# code points that break byte-level handling of the text: unpaired UTF-16 surrogates (what json.loads('"\\ud83d"'), a stream cut
+# inside an emoji, or errors="surrogateescape" decoding produce) cannot be encoded as UTF-8; NUL ends C strings; noncharacters;
+# astral pairs; C1/NEL and information separators (str.strip() treats them as white space, JSON does not)
+ODD_WORDS = ["\ud83d", "\udc80", "cut\ud83d", "\ude00tail", "\udfff\ud800", "x\ud800y", "a\x00b", "\x00", "\x00end", "\uffff", "\ufffe",
+             "\U0010ffff", "\U0001f600\U0001f3fd", "\x85", "\x1c\x1d", "nel\x85", "\udcff\udc80 bytes", "\U0001f9d1\u200d\U0001f4bb"]
+
 TYPOGRAPHY = frozenset(ch for w in UNI_WORDS for ch in w if ord(ch) > 0x7f)
 
 
@@ -118,8 +165,14 @@ HOSTILE = {
                 '{"name": "inner"}', "[]", '{"note": null}'],
 }
 HOSTILE["unicode"] = UNI_WORDS
+HOSTILE["odd"] = ODD_WORDS
 HOSTILE_CLASSES = ["python-literal", "python-literal", "trailing-comma", "undefined-nan", "quote-swap",
-                   "unquoted-key", "neutral", "neutral", "jsonish", "unicode", "unicode"]
+                   "unquoted-key", "neutral", "neutral", "jsonish", "unicode", "unicode", "odd"]
+
+
+def has_odd(text, limit=4000):
+    """Lone surrogates / NUL / noncharacters present (the text cannot be encoded, or not handled as a C string)."""
+    return any(0xD800 <= ord(ch) <= 0xDFFF or ch in "\x00\uffff\ufffe" for ch in text[:limit])
 
 
 def plain_string(rng):
@@ -128,6 +181,8 @@ def plain_string(rng):
     words = [rng.choice(PLAIN_WORDS) for _ in range(rng.randint(1, 3))]
     if rng.random() < 0.08:
         words[rng.randrange(len(words))] = rng.choice(UNI_WORDS)
+    if rng.random() < 0.03:
+        words[rng.randrange(len(words))] = rng.choice(ODD_WORDS)
     return " ".join(words)
 
 
@@ -154,11 +209,16 @@ def hostile_string(rng, n_groups_changing):
 
 def gen_scalar(rng, t, hostile_p, hs):
     if t == "int":
+        if rng.random() < 0.06:             # around the edges of float / 64-bit arithmetic
+            return rng.choice([2 ** 53, 2 ** 53 + 1, -(2 ** 53) - 1, 2 ** 63 - 1, -(2 ** 63), -(2 ** 63) - 1, 2 ** 64, 10 ** 22 + 1])
         return rng.choice([0, 1, -1, 3, 30, 42, -17, 1000, 2 ** 31, 2 ** 63, 10 ** 30, rng.randint(-10 ** 6, 10 ** 6)])
     if t == "float":
         r = rng.random()
         if r < 0.03:
             return rng.choice([float("nan"), float("inf"), float("-inf")])
+        if r < 0.09:                          # values whose last bits / sign / magnitude are easy to lose
+            return rng.choice([-0.0, 0.1 + 0.2, 0.3, 1 / 3, 5e-324, 2.2250738585072014e-308, 1.7976931348623157e308,
+                               -1.7976931348623157e308, 9007199254740993.0, 1e16 + 2, 0.1, 1 - 1e-16, 4.35, 1e-7])
         return rng.choice([0.0, 1.5, -2.25, 9.5, 3.0, 1e22, 1.5e-7, 100.0, round(rng.uniform(-1000, 1000), 3)])
     if t == "bool":
         return rng.random() < 0.5
@@ -169,9 +229,9 @@ def gen_scalar(rng, t, hostile_p, hs):
 
 def gen_value(rng, t, hostile_p, hs):
     if t == "list_int":
-        return [gen_scalar(rng, "int", 0, hs) for _ in range(rng.choice([0, 1, 2, 3, 4]))]
+        return [gen_scalar(rng, "int", 0, hs) for _ in range(rng.choice([0, 1, 2, 3, 4, 4, 11]))]
     if t == "list_str":
-        return [gen_scalar(rng, "str", hostile_p, hs) for _ in range(rng.choice([0, 1, 2, 3]))]
+        return [gen_scalar(rng, "str", hostile_p, hs) for _ in range(rng.choice([0, 1, 2, 3, 3, 10]))]
     return gen_scalar(rng, t, hostile_p, hs)
 
 
@@ -204,7 +264,7 @@ def semantic_ops(rng, shape, data, hs):
     k = rng.choice([0, 0, 0, 1, 1, 2])
     for _ in range(k):
         op = rng.choice(["num_to_str", "num_to_str", "str_to_num", "bool_to_str", "list_to_str", "drop_required",
-                         "null_required", "extra_key", "extra_key", "junk_type", "intlike_str", "float_for_int"])
+                         "null_required", "extra_key", "extra_key", "junk_type", "intlike_str", "float_for_int", "case_twin_key"])
         fields = [f for f in shape if f[0] in d and d[f[0]] is not None]
         pick = lambda ts: [f for f in fields if f[1] in ts]  # noqa: E731
         if op == "num_to_str":
@@ -263,6 +323,18 @@ def semantic_ops(rng, shape, data, hs):
                 f = rng.choice(fields)
                 d[f[0]] = rng.choice(["one hundred", [1, "x"], {"a": 1}, [], {}, "abc", -1.5])
                 labels.append(op)
+        elif op == "case_twin_key":
+            # an extra key that differs from a field's name only in case / surrounding white space, holding another value
+            if fields:
+                f = rng.choice(fields)
+                key = rng.choice([f[0].upper(), f[0].capitalize(), f[0].swapcase(), " " + f[0], f[0] + " "])
+                if key not in d and key not in [g[0] for g in shape]:
+                    val = rng.choice(["twin", 0, None, False, [], 99.5, {"x": 1}])
+                    if rng.random() < 0.5:
+                        d[key] = val
+                    else:
+                        d = dict([(key, val)] + list(d.items()))
+                    labels.append(op)
         elif op == "extra_key":
             key = rng.choice(["meta", "extra", "debug", "zeta", "info"])
             if key not in d:
@@ -397,7 +469,9 @@ PROSE_AFTER = ["Hope that helps!", "Let me know.", "(end)", "[sic]", "Done. {ok}
 DECOYS_INVALID = [('{"foo": 1}', {"foo": 1}), ("{}", {}), ("[1, 2]", None), ('{"name": 5, "age": "x"}', {"name": 5, "age": "x"}),
                   ('{"a": {"b": 2}}', {"a": {"b": 2}}), ("[]", None), ('{"unrelated": true}', {"unrelated": True}),
                   ("{'py': None}", {"py": None}), ('{"name": }', None), ("{note: 'free', ok: True,}", {"note": "free", "ok": True})]
-PADS = [" ", "\n\n", "\t", "\r\n", "\ufeff", "\xa0", "\u2028", "\x0c", "  \n ", "\x1f"]
+PADS = [" ", "\n\n", "\t", "\r\n", "\ufeff", "\xa0", "\u2028", "\x0c", "  \n ", "\x1f", "\x00", "\ud800", " \udc80", "\x85", "\U0010ffff"]
+ODD_PROSE = ["Sure! \ud83d here you go:", "note \udc80:", "\x00", "emoji cut \ud83e", "\udc80\udcff", "ok \uffff", "\U0001f600 done \ude00",
+             "see\x00below", "\ud83d"]
 
 
 def wrap(rng, text, decoy_valid_text, decoy_valid_value):
@@ -407,7 +481,7 @@ def wrap(rng, text, decoy_valid_text, decoy_valid_value):
     k = rng.choice([0, 0, 1, 1, 1, 2])
     for _ in range(k):
         op = rng.choice(["fence_json", "fence_bare", "fence_tight", "xml_tag", "prose", "prose", "decoy_invalid",
-                         "decoy_valid", "pad", "truncate", "backticks"])
+                         "decoy_valid", "pad", "truncate", "backticks", "odd_prose"])
         if op == "fence_json":
             text = "```json" + rng.choice(["\n", " ", "\r\n", ""]) + text + rng.choice(["\n", "", " "]) + "```"
         elif op == "fence_bare":
@@ -426,6 +500,14 @@ def wrap(rng, text, decoy_valid_text, decoy_valid_value):
                 text = text + rng.choice([" ", "\n"]) + rng.choice(PROSE_AFTER)
             else:
                 text = rng.choice(PROSE_BEFORE) + "\n" + text + "\n" + rng.choice(PROSE_AFTER)
+        elif op == "odd_prose":
+            r = rng.random()
+            if r < 0.4:
+                text = rng.choice(ODD_PROSE) + rng.choice([" ", "\n", ""]) + text
+            elif r < 0.7:
+                text = text + rng.choice([" ", "\n", ""]) + rng.choice(ODD_PROSE)
+            else:
+                text = rng.choice(ODD_PROSE) + "\n" + text + "\n" + rng.choice(ODD_PROSE)
         elif op == "decoy_invalid":
             dtext, dval = rng.choice(DECOYS_INVALID)
             if dval is not None:
